@@ -194,6 +194,27 @@ def gen_cases(tier: str, seed: int) -> List[Dict]:
             add("add.reduce", [P(shape)], {"axis": ax, "keepdims": rng.random() < 0.3})
             add("add.accumulate", [P(shape)], {"axis": ax})
         add("multiply.reduce", [P(shape, atoms=3, nterms=1)], {"axis": 0})
+    # long axes (every length 5..13 quick / 5..33 thorough): anything that folds an axis pairwise, in blocks or by halving must
+    # agree with the plain left fold for every length, not only the short ones above
+    for L in range(5, 14 if quick else 34):
+        for shape, ax in (((L,), 0), ((2, L), 1)) if (not quick or L % 2) else (((L,), 0),):
+            exps = [[0], [1]]
+            sp = S.make_poly_spec("a", ("q0",), exps, shape, rng, 4, zero_prob=0.0, literal_prob=1.0, mode="raw")
+            # literal +-1 / 2 coefficients with a few atoms sprinkled in: products stay small, every element differs
+            k = 0
+            for col in sp["slots"]:
+                for i in range(len(col)):
+                    col[i] = rng.choice([1, -1, 2, 1])
+                    if rng.random() < 0.25 and k < 3:
+                        col[i] = "a%d" % k
+                        k += 1
+            lit = dict(sp, slots=[[(v if not isinstance(v, str) else 2) for v in col] for col in sp["slots"]])  # products: literals only (degree L in an atom is beyond the solver)
+            add("prod", [lit], {"axis": ax, "keepdims": False}, tag="-long%d" % L)
+            add("sum", [sp], {"axis": ax, "keepdims": rng.random() < 0.3}, tag="-long%d" % L)
+            add("cumsum", [sp], {"axis": ax}, tag="-long%d" % L)
+            if L <= 9:
+                add("diff", [sp], {"n": rng.choice([1, 2, 3]), "axis": ax}, tag="-long%d" % L)
+        add("multiply.reduce", [S.make_poly_spec("a", ("q0", "q1"), [[1, 0], [0, 1]], (L,), rng, 2, zero_prob=0.3, literal_prob=1.0, mode="raw")], {"axis": 0}, tag="-long%d" % L)
     # diff / ediff1d
     for shape in [(3,), (4,), (2, 3), (3, 2), (2, 2, 2)]:
         for ax in range(-len(shape), len(shape)):
